@@ -7,6 +7,7 @@ package conform
 
 import (
 	"fmt"
+	"reflect"
 	stdsync "sync"
 	"testing"
 	"testing/synctest"
@@ -193,4 +194,36 @@ func TestWaitGroupNegativePanics(t *testing.T) {
 		wg.Done()
 		wg.Done()
 	})
+}
+
+// The stand-in for reflect.Select polls its cases itself and only falls back to the real call when
+// it has to block, so it must reproduce the real call's refusal of more than 65536 cases.
+func TestReflectSelectCaseLimitAgrees(t *testing.T) {
+	mk := func(n int) []reflect.SelectCase {
+		cs := make([]reflect.SelectCase, n)
+		for i := range cs {
+			c := make(chan int)
+			close(c)
+			cs[i] = reflect.SelectCase{Dir: reflect.SelectRecv, Chan: reflect.ValueOf(c)}
+		}
+		return cs
+	}
+	catch := func(f func()) (msg string) {
+		defer func() {
+			if p := recover(); p != nil {
+				msg = fmt.Sprint(p)
+			}
+		}()
+		f()
+		return ""
+	}
+	for _, n := range []int{65536, 65537} {
+		cs := mk(n)
+		real := catch(func() { reflect.Select(cs) })
+		var stand string
+		inSim(t, 1, func() { stand = catch(func() { sim.ReflectSelect(cs) }) })
+		if real != stand {
+			t.Fatalf("%d cases: reflect.Select panics with %q, the stand-in with %q", n, real, stand)
+		}
+	}
 }
